@@ -129,6 +129,10 @@ def get_type_graph(t: type) -> graphlib.TopologicalSorter[TypeNode]:
             # If no type was provided, there's no reason to do further processing.
             if child in (constants.empty, typing.Any):
                 continue
+            # String annotations taken from a signature arrive as references: they are
+            #   members like any other, not cycles.
+            if isinstance(child, refs.ForwardRef):
+                child = refs.evaluate(child)
 
             unwrapped = inspection.unwrap(child)
             # Only subscripted generics or non-stdlib types can be cyclic.
